@@ -61,3 +61,10 @@ claim("C17", "lockset dataflow, condition-variable wake-up rule, typestate of cl
 claim("C16", "writer/reader layout agreement from packed struct layouts, constant folding of the OPEN literal + RFC 4271 walk, attribute TLV size agreement, narrowing-conversion audit, bounded-decoder rule",
       "Offsets patched into messages equal the layout of the struct written; OPEN option/capability lengths cover exactly their bytes; constant attribute headers match the size of the payload writes; every narrowing is checked; the OPEN decoder reads only through LimitedReaders bound to the announced lengths and cannot panic or spin. Decided for every input at once; the value-level round trip is not.",
       NOTE, "DESIGN.md section 5, C16")
+
+claim("C14", "static type checker for text/template sources against go/types, template line-structure rules, map-order taint, field coverage, CFG dominance",
+      "The embedded FRR templates type-check against the Go data structs (the package's own tests need Docker and never run in the baseline), every data field is rendered, neighbour scoping / prefix-list naming / default-deny / on-match-next structure holds, the data handed to the templates is deterministic and complete, family-indexed sets follow the prefix family, Set validates and rolls back, merges are guarded. FRR's interpretation of the text is not decided.",
+      NOTE, "DESIGN.md section 5, C14")
+claim("C15", "field-sensitive map-order taint with comparator total-order obligations, loop must-pass rules, field coverage, sibling agreement between back ends, lockset dataflow",
+      "The FRRConfiguration is a deterministic function of the session set (no map order escapes), allowed prefixes are the sorted de-duplicated prefixes of the neighbour's own session, associations are per session and sorted, password XOR secret, node targeting, parameter coverage, identical validation in all back ends, reconciler state under its lock. Equivalence with FRR mode as values is not decided.",
+      NOTE, "DESIGN.md section 5, C15")
